@@ -65,6 +65,8 @@ def parseFs (root : Bytes) (fl : CfgFlags) (s : String) : Option Fs :=
     else match item.splitOn "=" with
       | [p, h] => do
         let pc := components (untilde (bytesOfString p))
+        -- `!target`: a dangling symbolic link: nothing is there (only its parents are)
+        if h.startsWith "!" then pure (withParents fs pc) else
         -- `@name`: a symbolic link to a file of the same directory, named earlier in the spec (reads follow it)
         let c ← if h.startsWith "@" then
             (match fs.lookup (rootCs ++ pc.dropLast ++ [bytesOfString (h.drop 1).toString]) with
@@ -304,6 +306,33 @@ def staleretxLine (toks : List String) : String :=
           | _ => "first=other"
         | _, _ => "first=other"
     | _, _ => "bad-op"
+  | _ => "bad-op"
+
+/-- the `quiet` scenario (harness/src/server.rs): client A is silent for a while - inside the retry budget of its worker - while client B
+is served, then goes on. By `c12_projection` A's outcome is its solo outcome: the transfer resumes and completes. -/
+def quietLine (toks : List String) : String :=
+  match toks with
+  | ["quiet", rootH, flags, fsS, dg, _silence, other] =>
+    match bytesOfHex rootH, bytesOfHex dg, bytesOfHex other with
+    | some root, some dgram, some od =>
+      let fl := parseFlags flags
+      let cfg := mkCfg root fl
+      match parseFs root fl fsS with
+      | none => "bad-op"
+      | some fs =>
+        let r := hd cfg fs dgram
+        let rb := hd cfg fs od
+        let bok := match rb.worker with | some _ => "ok" | none => "no"
+        match r.worker with
+        | some w =>
+          match w.kind with
+          | .send =>
+            match fs.stat w.path with
+            | some (.file _) => s!"first=data b={bok} resumed=ok done=ok"
+            | _ => "first=other"
+          | .receive => if fs.canCreate w.path then s!"first=ack0 b={bok} resumed=ok done=ok" else "first=other"
+        | none => "first=other"
+    | _, _, _ => "bad-op"
   | _ => "bad-op"
 
 /-- a hostile batch followed by a probe: by `c05_probe_independent` the batch does not enter the answer -/
